@@ -2,7 +2,7 @@
    from amf0_spec_121207 section 2 (Model/Amf0.v spec_enc/spec_dec).  Both decoders are related
    to the same wire relation of Proofs/Amf0.v; on values without a non-empty strict array they
    accept exactly the same byte strings with the same meaning. *)
-From Verif Require Import Lib.Base Lib.Sx Model.Amf0 Proofs.Amf0.
+From Verif Require Import Lib.Base Lib.Sx Model.Amf0 Proofs.Amf0 Proofs.Amf0Hist.
 From Verif Require Import Gen.Gen_amf0.
 Open Scope N_scope.
 Ltac Zify.zify_post_hook ::= Z.div_mod_to_equations.
@@ -350,4 +350,20 @@ Proof.
   specialize (S m (in_all_bytes m H)). unfold marker_row_ok in S.
   apply andb_true_iff in S. destruct S as [S1 S2].
   split; apply eqb_prop; assumption.
+Qed.
+
+(* ------------------------------------------------------------------ histories *)
+(* after ANY history of API calls (including rejected decodes into objects of the graph), what any
+   object of the graph marshals to is read by the specification's decoder as that object's current
+   value, when the value has no non-empty strict array *)
+Theorem history_lib_to_spec ops path sub rest :
+  forallb op_wf ops = true ->
+  g_at path (h_run g0 ops) = Some sub -> gsmall sub = true -> no_strictb (g_view sub) = true ->
+  spec_decode (fst (g_marshal sub) ++ rest) = Some (g_view sub, rest).
+Proof.
+  intros Hops Hat Hsm Hns.
+  assert (Hg : gwfc (h_run g0 ops) = true) by (apply h_run_wfc; [reflexivity|exact Hops]).
+  pose proof (g_at_wfc path _ sub Hg Hat) as Hsub.
+  destruct (marshal_spec sub Hsub) as (M1 & _). rewrite M1.
+  apply lib_to_spec; [apply gwf_view; assumption|exact Hns].
 Qed.
